@@ -345,7 +345,7 @@ def _pumps(ctx: core.Ctx, shard: int, nshards: int, sizes: list) -> None:
                     ctx.run({"kind": "src", "src": make(n), "mode": mode, "data": {"a": {"a": 1, "b": {"b": 2}}, "b": False}})
 
 
-def campaign(ctx: core.Ctx, tier: str, shard: int, nshards: int) -> None:
+def _campaign(ctx: core.Ctx, tier: str, shard: int, nshards: int) -> None:
     quick = tier == "quick"
     seed = core.sub_seed(ctx.seed, shard)
     _pumps(ctx, shard, nshards, [200, 1500, 4000] if quick else [200, 1000, 1500, 4000, 20000])
@@ -359,7 +359,16 @@ def campaign(ctx: core.Ctx, tier: str, shard: int, nshards: int) -> None:
     core.drive(sources(), ctx.run, n=(3000 if quick else 40000) // nshards, seed=seed + 3)
 
 
-def finish_kwargs(ctx: core.Ctx, tier: str) -> dict:
+def campaign(ctx: core.Ctx, tier: str, shard: int, nshards: int) -> None:
+    _campaign(ctx, tier, shard, nshards)
+    if tier == "thorough":
+        # coverage-guided stage: one libFuzzer campaign per shard with this module's evaluate() as the in-target oracle
+        from .. import fuzz
+
+        fuzz.campaign(ctx, PID, runs=30000, seed=core.sub_seed(ctx.seed, shard, 9))
+
+
+def _finish_kwargs(ctx: core.Ctx, tier: str) -> dict:
     return {
         "rule": (
             f"(a) filter cells: every registered filter (built-in+extra, {len(_filter_names())}) x left value x "
@@ -377,3 +386,13 @@ def finish_kwargs(ctx: core.Ctx, tier: str) -> dict:
             "from_string wraps every Exception raised while parsing in LiquidError by design",
         ],
     }
+
+
+def finish_kwargs(ctx: core.Ctx, tier: str) -> dict:
+    kw = _finish_kwargs(ctx, tier)
+    if tier == "thorough":
+        from .. import fuzz
+
+        kw["rule"] += fuzz.RULE_NOTE
+        kw.setdefault("assumptions", []).append(fuzz.ASSUMPTION)
+    return kw
